@@ -25,8 +25,10 @@ type outcome struct {
 	panic_ string
 }
 
-func run(src string) outcome {
-	rr := hx.RunAwk(src, &interp.Config{Stdin: strings.NewReader(input), Environ: []string{}, NoExec: true, NoFileWrites: true}, nil)
+func run(src string) outcome { return runOn(src, input) }
+
+func runOn(src, in string) outcome {
+	rr := hx.RunAwk(src, &interp.Config{Stdin: strings.NewReader(in), Environ: []string{}, NoExec: true, NoFileWrites: true}, nil)
 	o := outcome{out: string(rr.Out), status: rr.Status}
 	if rr.Err != nil {
 		o.err = rr.Err.Error()
@@ -374,6 +376,41 @@ BEGIN { one = 1; g = 7; G["k"] = 7; G[1, 2] = 7; NR = 7; $0 = "7 7 7"; r = f(H, 
 			check("lvalue-shortcut:assign-value:"+t.name, prog(fmt.Sprintf("v = (%s = 3 - one)", t.lv)), map[string]string{
 				"expanded": prog(fmt.Sprintf("%s = 3 - one; v = %s", t.lv, t.lv)),
 			})
+		}
+	}
+	// control transfers out of user functions over LONG inputs: next / nextfile / exit / return executed inside a function
+	// (at depth 1 and 50 calls deep, from a for-in body, from a loop) must leave the machine exactly as the inline
+	// spelling does, also after thousands of records (call depth, frames and local arrays are restored every time)
+	{
+		var lb strings.Builder
+		for i := 1; i <= 2600; i++ {
+			fmt.Fprintf(&lb, "%d\n", i)
+		}
+		long := lb.String()
+		pairs := [][2]string{
+			{`{ n++; if ($1 % 2) next; kept++ } END { print n, kept }`,
+				`function skip() { next } { n++; if ($1 % 2) skip(); kept++ } END { print n, kept }`},
+			{`{ n++; if ($1 % 2) next; kept++ } END { print n, kept }`,
+				`function outer(d) { if (d > 0) outer(d - 1); else next } { n++; if ($1 % 2) outer(49); kept++ } END { print n, kept }`},
+			{`{ n++; if ($1 % 3 == 0) next; A[$1 % 7]++ } END { for (k in A) s += A[k]; print n, s }`,
+				`function bump(R, k) { if (k % 3 == 0) next; R[k % 7]++ } { n++; bump(A, $1) } END { for (k in A) s += A[k]; print n, s }`},
+			{`{ n++; for (k in B) if ($1 % 5 == 0) next; B[$1 % 3] = 1; m++ } END { print n, m }`,
+				`function scan(R, v,   k) { for (k in R) if (v % 5 == 0) next } { n++; scan(B, $1); B[$1 % 3] = 1; m++ } END { print n, m }`},
+			{`{ n++; if (n == 2500) exit 3 } END { print n; for (i = 0; i < 3; i++) t += i; print t }`,
+				`function stop(c) { exit c } function add(a, b) { return a + b } { n++; if (n == 2500) stop(3) } END { print n; for (i = 0; i < 3; i++) t = add(t, i); print t }`},
+			{`{ n++; if ($1 % 2) nextfile; kept++ } END { print n, kept + 0 }`,
+				`function nf() { nextfile } { n++; if ($1 % 2) nf(); kept++ } END { print n, kept + 0 }`},
+			{`{ n++; x = ($1 % 2) ? 1 : 2; s += x } END { print n, s }`,
+				`function pick(v,   i) { for (i = 0; i < 5; i++) if (v % 2) return 1; return 2 } { n++; s += pick($1) } END { print n, s }`},
+		}
+		for i, pr := range pairs {
+			b, g := runOn(pr[0], long), runOn(pr[1], long)
+			rep.SearchEvals += 2
+			rep.Count("long-input-pairs")
+			if b != g {
+				rep.Fail(hx.Failure{Class: fmt.Sprintf("control-transfer-from-function-over-long-input:%d", i), Oracle: "equivalent spellings behave identically",
+					Detail: map[string]any{"program": pr[0], "respelled": pr[1], "input": "the numbers 1..2600, one per line", "base": b.String(), "respelled_result": g.String()}})
+			}
 		}
 	}
 	// the one known divergence between a chain and its regrouping (conversion happens after ALL operands are evaluated)
